@@ -1112,6 +1112,17 @@ func genLoop(o *out) {
 		// recover exists but is not the first deferred statement around the whole body
 		recoverFirst = false
 	}
+	// the job is user code: the model knows one call into it, Execute, made under the deferred recover; any other
+	// method of the job called here (in the recover handler, in a log argument) is a second place where user
+	// code can panic, and it is not modelled
+	ast.Inspect(er.Body, func(n ast.Node) bool {
+		if c, ok := n.(*ast.CallExpr); ok {
+			if sel, ok := c.Fun.(*ast.SelectorExpr); ok && lpRender(sel.X) == "jobDetail.job" && sel.Sel.Name != "Execute" {
+				die("executeWithRetries: calls jobDetail.job.%s(): user code other than Execute runs here (a panic in it is not covered by the model of the deferred recover)", sel.Sel.Name)
+			}
+		}
+		return true
+	})
 	idx := 0
 	if recoverFirst {
 		idx = 1
